@@ -18,7 +18,10 @@ Open Scope string_scope.
 (* Census records (filled by translator/cmd/census)                                      *)
 
 Inductive walk_class :=
-| SortedAfter          (* collects into ONE slice whose next use is a sort.* call              *)
+| SortedAfter          (* collects into ONE slice whose next use is a sort.* call whose order is
+                          the plain < on a string/integer that IS the walk key                  *)
+| SortedCustomComparator (* sorted afterwards, but by a Less method / sort.Slice function that is
+                          not literally x[i].F < x[j].F on the walk key: items may tie          *)
 | CommutativeFill      (* only m2[k] = v, delete, numeric accumulation                          *)
 | ExistsQuery          (* leaves only by `return <constants>`; no other effect                  *)
 | EarlyExitFirstMatch  (* return / break / panic at the first element satisfying a condition    *)
@@ -44,7 +47,7 @@ Record global_var := mkGlobal {
 
 Definition class_eqb (a b : walk_class) : bool :=
   match a, b with
-  | SortedAfter, SortedAfter | CommutativeFill, CommutativeFill | ExistsQuery, ExistsQuery
+  | SortedAfter, SortedAfter | SortedCustomComparator, SortedCustomComparator | CommutativeFill, CommutativeFill | ExistsQuery, ExistsQuery
   | EarlyExitFirstMatch, EarlyExitFirstMatch | OrderObservable, OrderObservable | CallsOnly, CallsOnly => true
   | _, _ => false
   end.
@@ -129,6 +132,11 @@ Definition registry_scan (order : list (Z * Z)) (ty : Z) : option Z :=
 Definition goname_fill (togo : Z -> Z) (order : list (Z * Z)) : Z -> option Z :=
   fill_walk Z Z Z Z Z.eqb (fun kv => togo (fst kv)) snd order (fun _ => None).
 
+(* a sorted walk whose comparator folds keys together before comparing (e.g. a Less that
+   compares strings.ToLower of the keys): distinct keys tie, the sort leaves them in walk order *)
+Definition folded_sort_walk (fold : Z -> Z) (order : list (Z * Z)) : list (Z * Z) :=
+  sorted_walk Z Z (fun kv => kv) (zsort (fun kv : Z * Z => fold (fst kv))) order.
+
 (* scopes.go:Scope.Show: val.SexpString(ps) is evaluated IN WALK ORDER with a shared
    PrintState (a value already seen prints as nothing), the strings are sorted afterwards. *)
 Definition show_walk (order : list (Z * Z)) : list (Z * Z) :=
@@ -173,7 +181,8 @@ Definition same_site (l : listed) (s : site) : bool :=
   String.eqb (l_file l) (s_file s) && String.eqb (l_func l) (s_func s) && Nat.eqb (l_idx l) (s_idx s)
   && String.eqb (l_map l) (s_map s) && class_eqb (l_class l) (s_class s).
 
-(* walks whose order is observable in principle but not by a program (one line of reason each) *)
+(* walks whose order is observable in principle but not by a program, and sorted walks with a
+   custom comparator whose items provably never tie (one line of reason each) *)
 Definition benign_sites : list listed := [
   mkListed "environment.go" "Zlisp.DumpSymTable" 0 "env.symtable" OrderObservable
     "debugging dump for Go callers; no builtin, special form or REPL command reaches it";
@@ -195,7 +204,7 @@ Definition known_nondeterministic : list listed := [
   mkListed "jsonmsgp.go" "SexpToGoStructs" 2 "src.Map" EarlyExitFirstMatch "togo-map-colliding-keys";
   mkListed "jsonmsgp.go" "SexpToGoStructs" 3 "src.Map" EarlyExitFirstMatch "togo-map-colliding-keys";
   mkListed "jsonmsgp.go" "SexpToGoStructs" 4 "src.Map" OrderObservable "togo-unknown-field-order";
-  mkListed "scopes.go" "Scope.Show" 0 "scop.Map" SortedAfter "scope-show-shared-printstate"
+  mkListed "scopes.go" "Scope.Show" 0 "scop.Map" SortedCustomComparator "scope-show-shared-printstate"
 ].
 
 Definition site_ok (s : site) : bool :=
